@@ -28,7 +28,10 @@ GOENV = dict(os.environ, GOFLAGS="-mod=mod", GOPROXY="off", GOSUMDB="off", GOTOO
 
 # Per-property configuration: Lean modules holding the property theorems (Props) and the axioms
 # audit, and whether a model differential (ops → xmtmodel) exists.
-PROPS = json.load(open(os.path.join(VERIF, "lib", "props.json")))
+sys.path.insert(0, os.path.dirname(os.path.abspath(__file__)))
+import gen  # noqa: E402
+
+PROPS = gen.load_props()
 
 
 def log(*a):
@@ -112,6 +115,7 @@ def regen_facts():
 
 def lake_build(targets):
     with Lock("lake"):
+        gen.gen_lean()
         rc, out, dt = run(["lake", "build"] + targets, cwd=LEAN, timeout=3000)
     return rc == 0, out, dt
 
@@ -341,6 +345,32 @@ def main(argv):
                        "names": ["correspondence %s: model and implementation differ on op `%s`" % (pid, first_diffs[0]["op"][:160])],
                        "diffs": first_diffs[:20]})
 
+    # 3b. a proof / tie / correspondence broke but the quick-tier oracles found no failing input:
+    # search harder (thorough-tier generators, two seeds) before reporting no-failing-input-found.
+    if broken and ok and not [f for f in oracle_fails if not match_known(known, pid, f["key"])] and tier == "quick" and only is None:
+        notes["escalated_search"] = True
+        for s in (seed, seed + 7919):
+            d = os.path.join(rundir, "esc%d" % s)
+            cmd = [os.path.join(BUILD, "xmth"), pid, "--out", d, "--seed", str(s), "--tier", "thorough"]
+            env = dict(os.environ, GOMEMLIMIT=cfg.get("gomemlimit", "6GiB"), VERIF_REPO=REPO, VERIF_BUILD=BUILD, **{k: GOENV[k] for k in ("GOFLAGS", "GOPROXY", "GOSUMDB", "GOTOOLCHAIN")})
+            rc, hout, _ = run(cmd, cwd=GO, env=env, timeout=cfg.get("timeout_escalate", 600))
+            if rc != 0:
+                oracle_fails.append({"property": pid, "case": -1, "kind": "harness-crash", "key": "crash:" + crash_sig(hout),
+                                     "detail": hout[-3000:], "input": {"seed": s, "tier": "thorough"}, "seed": s})
+            op = os.path.join(d, "oracle.jsonl")
+            if os.path.exists(op):
+                for line in open(op):
+                    try:
+                        f = json.loads(line)
+                        f["seed"] = s
+                        f["tier"] = "thorough"
+                        oracle_fails.append(f)
+                    except ValueError:
+                        pass
+            sp = os.path.join(d, "stats.json")
+            if os.path.exists(sp):
+                notes["escalated_evaluations"] = notes.get("escalated_evaluations", 0) + json.load(open(sp)).get("evaluations", 0)
+
     # 4. verdict
     # (a) direct oracle failures = concrete failing inputs
     groups = {}
@@ -355,7 +385,7 @@ def main(argv):
             unknown_groups[key] = fs
     for key, fs in unknown_groups.items():
         f = min(fs, key=lambda x: len(json.dumps(x.get("input"), default=str)))
-        payload = {"property": pid, "seed": f.get("seed", seed), "tier": tier, "case": f.get("case"), "kind": f["kind"], "key": key,
+        payload = {"property": pid, "seed": f.get("seed", seed), "tier": f.get("tier", tier), "case": f.get("case"), "kind": f["kind"], "key": key,
                    "detail": f["detail"], "input": f.get("input"), "occurrences": len(fs),
                    "implicated": [n for b in broken for n in b["names"]][:10],
                    "replay_cmd": "./check %s --replay <this file>" % pid}
